@@ -100,7 +100,7 @@ func c15Shares(r *vk.Rng) *big.Int {
 }
 
 func runC15(c *vk.Ctx) {
-	c.R.Rule = "cases = operation sequences on one accumulator over 2-5 names and 1-3 reward denoms: AddToAccumulator, NewPosition(+interval form), AddTo/RemoveFrom/UpdatePosition(+interval forms), SetPositionIntervalAccumulation, AddToUnclaimedRewards, ClaimRewards, DeletePosition, and invalid calls (unknown name, zero / negative / excessive share change); half the sequences use a fresh GetAccumulator handle per operation, half one persistent handle. After every operation total shares, every position record and every position's claimable amount are compared with an exact big.Rat ledger; failing calls must leave the store digest unchanged. distinct_nontrivial counts distinct (handle mode, operation, outcome, #denoms with non-zero claim, claim-near-integer?) tuples."
+	c.R.Rule = "cases = operation sequences on one accumulator over 2-5 names and 1-3 reward denoms: AddToAccumulator, NewPosition(+interval form), AddTo/RemoveFrom/UpdatePosition(+interval forms), SetPositionIntervalAccumulation, AddToUnclaimedRewards, ClaimRewards, DeletePosition, and invalid calls (unknown name, zero / negative / excessive share change); a third of the sequences use a fresh GetAccumulator handle per operation, a third one persistent handle, a third two long-lived handles alternately (one of them stale in its total-share field whenever the other changed shares; both refreshed before value changes and before operations that write the cached total back). After every operation total shares, every position record and every position's claimable amount are compared with an exact big.Rat ledger; failing calls must leave the store digest unchanged. distinct_nontrivial counts distinct (handle mode, operation, outcome, #denoms with non-zero claim, claim-near-integer?) tuples."
 	nSeq := c.N(4000, 120000)
 	opsPer := c.N(60, 120)
 	c.Cases("sequence", nSeq, func(i int, r *vk.Rng) {
@@ -113,13 +113,38 @@ func runC15(c *vk.Ctx) {
 		if persistent {
 			mode = "persistent"
 		}
+		// every third sequence: two long-lived handles used alternately. The share-changing position
+		// operations re-read the total from the store, so a handle whose total-share field is stale
+		// (the other handle changed it) is legitimate for them; value changes and the operations that
+		// write the cached total back refresh both handles first.
+		two := i%3 == 2
+		if two {
+			persistent, mode = true, "two-handles"
+		}
+		var hs [2]*accum.AccumulatorObject
+		valueDirty := false
 		m := &c15Model{denoms: denoms, value: map[string]*big.Int{}, pos: map[string]*c15Pos{}}
 		if err := accum.MakeAccumulator(st, "acc"); err != nil {
 			c.Violate("C15.setup", nil, "MakeAccumulator: %v", err)
 			return
 		}
 		var handle *accum.AccumulatorObject
-		get := func() *accum.AccumulatorObject {
+		get := func(staleSafe bool) *accum.AccumulatorObject {
+			if two {
+				idx := r.Intn(2)
+				if !staleSafe || valueDirty || hs[idx] == nil {
+					for j := range hs {
+						h, err := accum.GetAccumulator(st, "acc")
+						if err != nil {
+							panic(err)
+						}
+						hs[j] = h
+					}
+					valueDirty = false
+				}
+				handle = hs[idx]
+				return handle
+			}
 			if persistent && handle != nil {
 				return handle
 			}
@@ -154,10 +179,12 @@ func runC15(c *vk.Ctx) {
 			expectFail := false
 			var err error
 			rec, stack := vk.Guard(func() {
-				a := get()
+				staleSafe := k >= 22 && ((k < 36 && !exists) || (k < 50 && exists) || (k < 62 && exists && m.pos[name].shares.Sign() > 0))
+				a := get(staleSafe)
 				switch {
 				case k < 22:
 					opName = "AddToAccumulator"
+					valueDirty = true
 					amt := map[string]*big.Int{}
 					for _, d := range denoms {
 						if r.Intn(3) != 0 {
@@ -378,7 +405,7 @@ func runC15(c *vk.Ctx) {
 					c.Violate("C15.failed_call_had_effect", sig(opName), "%s returned %v but changed the store", opName, err)
 					return
 				}
-				if persistent { // a failing call must not corrupt the handle either
+				if persistent && !two { // a failing call must not corrupt the handle either
 					h2, _ := accum.GetAccumulator(st, "acc")
 					if !h2.GetTotalShares().Equal(handle.GetTotalShares()) || !h2.GetValue().Equal(handle.GetValue()) {
 						c.Violate("C15.failed_call_had_effect", sig(opName), "%s left the handle out of sync with the store", opName)
